@@ -83,7 +83,7 @@ function makeWorld (opts) {
   return { log, child, desc, bind (sb) { sandboxRef = sb } }
 }
 
-const FREE = ['a', 'b', 'c', 'o', 'f', 'g', 's', 'k', 'r', 'q', 'x', 'y', 'z', 'arr', 'fn', 'obj', 'F', 'B', 'cond', 'tag', 'aloneMethod']
+const FREE = ['a', 'b', 'c', 'o', 'f', 'g', 's', 'k', 'r', 'q', 'x', 'y', 'z', 'arr', 'fn', 'obj', 'F', 'B', 'cond', 'tag', 'aloneMethod', 'f2', 'log', 'table', 'w', 'h', 'd', 'v']
 
 function runOne (code, opts) {
   const w = makeWorld(opts)
@@ -101,7 +101,10 @@ function runOne (code, opts) {
     const v = script.runInContext(ctx, { timeout: 2000 })
     outcome = 'value ' + w.desc(v)
     if (typeof ctx.main === 'function') {
-      try { outcome = 'main ' + w.desc(ctx.main()) } catch (e) { outcome = 'main throws ' + (e && e.constructor && e.constructor.name) }
+      // main runs inside the context's own timeout: a loop whose condition is an (always truthy) proxy must not hang the driver
+      try { outcome = 'main ' + w.desc(vm.runInContext('main()', ctx, { timeout: 1500 })) } catch (e) {
+        outcome = (e && e.code === 'ERR_SCRIPT_EXECUTION_TIMEOUT') ? 'main timeout' : 'main throws ' + (e && e.constructor && e.constructor.name)
+      }
     }
     if (typeof ctx.result !== 'undefined') outcome += ' result=' + w.desc(ctx.result)
   } catch (e) {
